@@ -185,7 +185,7 @@ func GenScen(r *rand.Rand, o GenOpts) *Scen {
 				nl = 1
 			} else {
 				t := genTarget(r, li)
-				if li > 0 && t.Col == "MATCHED_VARS" && len(ru.Links) > 0 && len(ru.Links[0].Targets) > 0 && ru.Links[0].Targets[0].Count {
+				if li > 0 && t.Col == "MATCHED_VARS" && anyCount(ru.Links) {
 					t.Col = "MATCHED_VAR" // names recorded for a count are unspecified
 				}
 				l = Link{Targets: []Target{t}, Tfs: genTfList(r), Op: genOp(r, t.Count, o), HasOp: true, Acts: []Action{}}
@@ -232,4 +232,15 @@ func GenScen(r *rand.Rand, o GenOpts) *Scen {
 	}
 	NormalizeScen(s)
 	return s
+}
+
+func anyCount(ls []Link) bool {
+	for _, l := range ls {
+		for _, t := range l.Targets {
+			if t.Count {
+				return true
+			}
+		}
+	}
+	return false
 }
